@@ -113,6 +113,7 @@ def run_scratch(name, props):
     patch = os.path.join(SEEDED, name, "patch.diff")
     wt = "/tmp/sr-" + name
     out = "/tmp/sr-out-" + name
+    bld = "/tmp/sr-build-" + name
     sh("git -C %s worktree remove --force %s" % (REPO, wt))
     shutil.rmtree(wt, ignore_errors=True)
     shutil.rmtree(out, ignore_errors=True)
@@ -125,7 +126,7 @@ def run_scratch(name, props):
             print("patch does not apply:", o)
             return 2
         for p in props:
-            rc, o = sh("VERIF_REPO=%s VERIF_OUT=%s VERIF_JOBS=%s python3 %s/run.py check %s --tier %s" % (wt, out, os.environ.get("SEEDED_JOBS", "4"), VERIF, p, os.environ.get("SEEDED_TIER", "quick")))
+            rc, o = sh("VERIF_REPO=%s VERIF_OUT=%s VERIF_BUILD=%s VERIF_JOBS=%s python3 %s/run.py check %s --tier %s" % (wt, out, bld, os.environ.get("SEEDED_JOBS", "4"), VERIF, p, os.environ.get("SEEDED_TIER", "quick")))
             viol = [l for l in o.split("\n") if l.startswith("VIOLATION")]
             keys = [l.strip() for l in o.split("\n") if l.strip().startswith("key:")]
             det[p] = {"exit": rc, "violations": len(viol), "keys": keys[:6]}
@@ -134,6 +135,7 @@ def run_scratch(name, props):
         sh("git -C %s worktree remove --force %s" % (REPO, wt))
         shutil.rmtree(wt, ignore_errors=True)
         shutil.rmtree(out, ignore_errors=True)
+        shutil.rmtree(bld, ignore_errors=True)
     m = load_meta(name)
     m.setdefault("detection", {}).update(det)
     save_meta(name, m)
